@@ -10,7 +10,7 @@ from .interp import Unsupported
 from .values import SymNum, ComplexVal, Obj
 from .regions import IV
 from . import spec
-from .algebra import compare_terms, Undefined, TooHard
+from .algebra import compare_terms, Undefined, TooHard, has_head
 from .evalengine import region_env
 from .structure import class_fields
 
@@ -136,6 +136,24 @@ def obj_to_tree(it, o, depth=0):
     return (k, obj_to_tree(it, o.attrs[singles[0]], depth + 1), num(o.attrs[params[0]]))
 
 
+def obj_ids(it, o, depth=0):
+    """Identity skeleton parallel to obj_to_tree: (oid, [children skeletons in spec.children order])."""
+    if depth > 60 or not isinstance(o, Obj):
+        return (0, [])
+    k = o.cls.name
+    if k not in _FIELDS_CACHE:
+        obj_to_tree(it, o, depth)
+    singles, lists, _params = _FIELDS_CACHE[k]
+    kids = []
+    if k in spec.NARY:
+        kids = [obj_ids(it, c, depth + 1) for c in o.attrs[lists[0]]]
+    elif k in spec.BINARY:
+        kids = [obj_ids(it, o.attrs[singles[0]], depth + 1), obj_ids(it, o.attrs[singles[1]], depth + 1)]
+    elif k in spec.UNARY or k in spec.PARAM:
+        kids = [obj_ids(it, o.attrs[singles[0]], depth + 1)]
+    return (o.oid, kids)
+
+
 def well_formed(tree) -> str:
     """'' or a reason why the tree is not a well-formed expression."""
     k = tree[0]
@@ -248,8 +266,11 @@ def _judge_numeric(o, exp, need_value, signs, renv):
             verdict, wit = compare_terms(SymNum.of(v).term, exp[1], signs, region_env=renv)
             if verdict == "equal":
                 r["status"] = "ok"
-            elif verdict == "differ":
-                r.update(status="value-differs", witness=wit)
+            elif verdict == "differ" or has_head(SymNum.of(v).term, "round"):
+                r.update(status="value-differs", witness=wit if verdict == "differ" else
+                         {"at": "any non-integer point", "values": [0.0, 0.0]})
+                if has_head(SymNum.of(v).term, "round"):
+                    r["imprecise"] = False
             else:
                 r.update(status="value-unknown", reason=f"{verdict}: {wit}")
     return r
